@@ -115,6 +115,7 @@ impl Model for BW {
                 match v {
                     "T" => self.pfacts.set(&format!("{}.v", f), RV::Boolean(true)),
                     "F" => self.pfacts.set(&format!("{}.v", f), RV::Boolean(false)),
+                    "S" => self.pfacts.set(&format!("{}.v", f), RV::String("true".to_string())),
                     _ => {
                         self.pfacts.remove(&format!("{}.v", f));
                     }
@@ -146,9 +147,15 @@ impl Model for BW {
                 let maxsol = l["maxsol"].as_u64().unwrap_or(1) as usize;
                 let with_rete = l["rete"].as_bool().unwrap_or(false);
                 let tag = format!("{}/{}/{}/{}", depth, strat, maxsol, with_rete);
-                if self.pengine.as_ref().map(|(_, t)| *t != tag).unwrap_or(true) {
-                    // configuration is part of what an answer may depend on: one persistent engine per configuration
-                    self.pengine = Some((mk_engine(&self.rules, depth, strat, maxsol, true), tag));
+                match self.pengine.as_mut() {
+                    None => self.pengine = Some((mk_engine(&self.rules, depth, strat, maxsol, true), tag)),
+                    Some((pe, t)) if *t != tag => {
+                        // the configuration is part of what an answer may depend on: the ONE persistent engine is reconfigured
+                        // (set_config), the fresh engine below is built with the new configuration
+                        pe.set_config(BackwardConfig { max_depth: depth, strategy: strategy(strat), enable_memoization: true, max_solutions: maxsol });
+                        *t = tag;
+                    }
+                    _ => {}
                 }
                 // fresh engine on a copy of exactly the facts that are about to be passed in
                 let mut copy = Facts::new();
